@@ -30,9 +30,9 @@ import (
 type Space struct {
 	Name  string
 	N     func(thorough bool) uint64
-	Case  func(thorough bool, i uint64) any       // JSON-able case for reports
+	Case  func(thorough bool, i uint64) any           // JSON-able case for reports
 	Check func(thorough bool, i uint64) []rep.Finding // runs case i (may die)
-	Class func(thorough bool, i uint64) string    // non-trivial class label ("" = trivial)
+	Class func(thorough bool, i uint64) string        // non-trivial class label ("" = trivial)
 }
 
 var spaces = map[string]*Space{}
@@ -308,8 +308,8 @@ func Run(r *rep.Run, space string, thorough bool, nshards int) {
 					}
 				} else if same {
 					r.Report(space, sp.Case(thorough, k), rep.Finding{
-						Key:  "process-death|" + space + "|" + deathClass(res),
-						What: "the process executing this case died or hung: " + deathClass(res),
+						Key:    "process-death|" + space + "|" + deathClass(res),
+						What:   "the process executing this case died or hung: " + deathClass(res),
 						Detail: map[string]any{"stderr": firstLines(res.stderr, 6), "hang": res.hang},
 					})
 				} else {
